@@ -214,6 +214,112 @@ def inputs(tier, seed):
     return gs, exh
 
 
+def _sub_work(chunk):
+    """queries asked on the sub-graphs of regions of (partly) restructured hierarchies - the graphs
+    "whose edges leave the graph" that the library itself produces; the fallback of
+    find_headers_and_entries through the parent region only exists there"""
+    from harness import gen as _gen
+    from numba_scfg.core.datastructures import basic_block as bb
+    drv = common.Driver()
+    lines, meta = [], []
+    stale_skipped = [0]
+    for succ in chunk:
+        scfg = export.mk_scfg(succ)
+        for op in ("join_returns", "restructure_loop", "restructure_branch"):
+            try:
+                getattr(scfg, op)()
+            except Exception:  # noqa: BLE001
+                break
+            if op == "join_returns":
+                continue
+            top, hl = export.export(scfg)
+            lines.append(f"H {top} {hl}")
+            meta.append(None)
+
+            def regions(g, owner, fresh):
+                # `fresh`: every region object on the way down is the one its sub-graph points
+                # back to and records the object that really contains it as its parent (the
+                # library keeps older copies of region blocks alive in these back pointers; the
+                # fall-back arm of find_headers_and_entries follows them)
+                for b in g.graph.values():
+                    if isinstance(b, bb.RegionBlock):
+                        f = fresh and b.subregion.region is b and b.parent_region is owner and owner.subregion is g
+                        yield b, f
+                        yield from regions(b.subregion, b, f)
+            for r, fresh in regions(scfg, scfg.region, True):
+                sub, c = r.subregion, r.name
+                names = list(sub.graph)
+                outside = sorted({t for b in sub.graph.values() for t in b._jump_targets if t not in sub.graph})
+                out = []
+
+                def q(line, f, kind):
+                    try:
+                        first = "ok " + f()
+                    except Exception as e:  # noqa: BLE001
+                        first = exc(e)
+                    out.append((line, first, kind))
+                q(f"find_head {c}", lambda: sub.find_head(), "head")
+                q(f"scc {c}", lambda: (lambda x: ";".join(cj(sorted(t)) for t in x) if x else "-")(sub.compute_scc()), "scc")
+                subsets = [(n,) for n in names[:4]] + [tuple(names)] + ([tuple(names[:2])] if len(names) > 2 else [])
+                for ss in subsets:
+                    fallback = not any(t in ss for n_, b_ in sub.graph.items() if n_ not in ss for t in b_._jump_targets)
+                    if fallback and not fresh:
+                        stale_skipped[0] += 1       # answer depends on which old copies are still referenced
+                        continue
+                    q(f"headers_entries {c} {cj(ss)}", lambda: (lambda x: f"{cj(x[0])} {cj(x[1])}")(sub.find_headers_and_entries(set(ss))),
+                      "he-fallback" if fallback else "he")
+                    q(f"exiting_exits {c} {cj(ss)}", lambda: (lambda x: f"{cj(x[0])} {cj(x[1])}")(sub.find_exiting_and_exits(set(ss))), "ee")
+                for a in names[:3]:
+                    for b_ in names[:3] + outside[:2]:
+                        q(f"reach {c} {a} {b_}", lambda: "1" if sub.is_reachable_dfs(a, b_) else "0", "reach")
+                for line, real, kind in out:
+                    lines.append("Q " + line)
+                    lines.append("R " + line)
+                    meta.append((succ, line, real, kind))
+                    meta.append("ref")
+    rep = drv.run(lines) if lines else []
+    mism, fails = [], []
+    n = 0
+    i = 0
+    while i < len(lines):
+        m = meta[i]
+        if m is None:
+            i += 1
+            continue
+        succ, line, real, kind = m
+        model, ref = rep[i], rep[i + 1]
+        n += 1
+        if kind == "he-fallback":
+            # no block of the sub-graph jumps into the subset: the documented answer is the head of
+            # the sub-graph and the entries of the enclosing region in its parent's graph - the
+            # model computes exactly that on the exported hierarchy
+            if real != model:
+                fails.append((succ, "headers-entries-of-a-region-subgraph", f"{line}: impl {real!r}, by the documented fall-back {model!r}"))
+            i += 2
+            continue
+        mm, sf = compare(kind, line, real, model, ref, None)
+        if mm:
+            mism.append((succ, mm))
+        if sf and kind in ("reach", "ee", "scc"):
+            fails.append((succ, kind + "-on-region-subgraph", sf))
+        i += 2
+    return mism, fails, n, stale_skipped[0]
+
+
+def subgraph_queries(ctx):
+    from harness import gen as _gen
+    rng = random.Random(ctx["seed"] * 7 + 131)
+    gs = [s for _, s in _gen.graph_inputs(ctx["tier"], ctx["seed"]) if 3 <= len(s) <= 10]
+    rng.shuffle(gs)
+    gs = gs[: (400 * common.boost() if ctx["tier"] == "quick" else 8000)]
+    nproc = common.ncpu()
+    size = max(10, len(gs) // (nproc * 2) + 1)
+    chunks = [gs[i:i + size] for i in range(0, len(gs), size)]
+    with mp.get_context("fork").Pool(nproc) as pool:
+        parts = pool.map(_sub_work, chunks)
+    return [m for p in parts for m in p[0]], [f for p in parts for f in p[1]], sum(p[2] for p in parts), sum(p[3] for p in parts)
+
+
 def run(ctx):
     gs, exh = inputs(ctx["tier"], ctx["seed"])
     nproc = common.ncpu()
@@ -226,12 +332,17 @@ def run(ctx):
     stats = Counter()
     for p in parts:
         stats.update(p[2])
+    smism, sfails, nsub, nstale = subgraph_queries(ctx)
+    mism += smism
+    fails += sfails
+    stats["queries on region sub-graphs of restructured hierarchies"] = nsub
+    stats["fall-back queries skipped because a region back pointer is an older copy"] = nstale
     violations, broken = [], []
     bykind = {}
     for g, kind, sf in fails:
         bykind.setdefault(kind, []).append((g, sf))
     for kind, items in bykind.items():
-        g, sf = min(items, key=lambda x: (len(x[0]), sum(len(t) for t in x[0])))
+        g, sf = min(items, key=lambda x: (len(x[0]), sum(len(t) for t in x[0] if not isinstance(t, int))))
         violations.append({"signature": {"query": kind}, "what": f"query '{kind}' disagrees with its definition on {len(items)} inputs: {sf}",
                            "payload": {"graph": [list(t) for t in g], "detail": sf, "count": len(items)}})
     if mism:
